@@ -25,12 +25,34 @@ class ObjErr(BaseException):
 EXC = {"Exception": Exception, "ValueError": ValueError, "BaseExceptionSubclass": ObjErr,
        "KeyboardInterrupt": KeyboardInterrupt, "SystemExit": SystemExit, "GeneratorExit": GeneratorExit}
 
+# further shapes of the same failure: exceptions constructed without arguments (what Ctrl-C and MemoryError look
+# like in practice), with non-string or several arguments, and failures raised by the interpreter itself
+SHAPES = {
+    "KeyboardInterrupt()": lambda: KeyboardInterrupt(),
+    "BaseExceptionSubclass()": lambda: ObjErr(),
+    "MemoryError()": lambda: MemoryError(),
+    "Exception(42)": lambda: Exception(42),
+    "OSError(2, 'No such file')": lambda: OSError(2, "No such file"),
+    "StopIteration()": lambda: StopIteration(),
+    "ZeroDivisionError from 1/0": None,
+    "Exception(())": lambda: Exception(()),
+}
+
+
+def _raise(excname):
+    if excname in EXC:
+        raise EXC[excname]("injected objective failure")
+    mk = SHAPES[excname]
+    if mk is None:
+        return 1 / 0
+    raise mk()
+
 
 def fault_case(cfg, base_answer, k, excname):
     """Solve with the k-th evaluation raising; returns messages"""
     def answer(i, y):
         if i == k:
-            raise EXC[excname]("injected objective failure")
+            _raise(excname)
         return base_answer(i, y)
     run = tree.make_run(dict(cfg, eps=0.0, itersLimit=k + 3), answer)
     try:
@@ -71,7 +93,7 @@ def block(task):
     for node in nodes:
         k = len(node) + 1
         stats["nodes"] += 1
-        for exc in task["excs"]:
+        for exc in list(task["excs"]) + (list(task.get("shapes", ())) if len(node) <= task.get("shape_depth", 99) else []):
             stats["runs"] += 1
             for m in fault_case(cfg, tree.scripted(node, alphabet), k, exc):
                 viol.append(dict(driver="tree", cfg=cfg, alphabet=alphabet, choices=list(node), k=k, exc=exc, message=m,
@@ -100,6 +122,8 @@ def run(ctx):
             plan.append(dict(cfg=cfg, alphabet=a, depth=d))
             for t in tree.tree_tasks(cfg, ALPHABETS[a], d, split=2):
                 t["excs"] = excs
+                t["shapes"] = list(SHAPES)
+                t["shape_depth"] = 99 if th else 4
                 tasks.append(t)
     out = pmap(block, tasks)
     runs = nodes = 0
@@ -112,7 +136,8 @@ def run(ctx):
         for N in (1, 2):
             cfg = dict(N=N, r=2.5, box="B1", env=env)
             for k in range(2, (120 if th else 60) + 1):
-                for exc in (excs if th else ("Exception", "KeyboardInterrupt")):
+                for exc in ((excs + list(SHAPES)) if th else
+                            ("Exception", "KeyboardInterrupt") + (tuple(SHAPES) if (env, N) == ("abs13", 1) or k <= 6 else ())):
                     ltasks.append(dict(cfg=cfg, k=k, exc=exc))
     lout = pmap(long_case, ltasks, chunksize=8)
     for t, msgs in zip(ltasks, lout):
@@ -123,7 +148,8 @@ def run(ctx):
         rule="one execution of Solve per (history, fault position k = |history|+1, exception type); histories = all nodes "
              "of the answer tree up to the depth bound plus every position of deviation-free long runs; distinct "
              "non-trivial = distinct (history, fault position) pairs (k >= 2, so at least one completed trial)",
-        exhaustive=True, fault_positions=nodes, exception_types=excs, plan=plan, long_run_faults=len(ltasks),
+        exhaustive=True, fault_positions=nodes, exception_types=excs + list(SHAPES),
+        shapes_applied_to="every node" if th else "every node of depth <= 4, every position of one long run, positions <= 6 of the others", plan=plan, long_run_faults=len(ltasks),
         states=nodes, transitions=runs, traces_validated_against_impl=runs + len(ltasks),
         samples=[dict(cfg=tasks[0]["cfg"], history=[0, 1], fault_at=3, exc="KeyboardInterrupt"), ltasks[0]],
     )
